@@ -462,6 +462,18 @@ pub fn store_histories() -> Vec<(&'static str, Vec<Op>)> {
             ],
         ),
         (
+            // complex selectors over annotations that do not have consecutive handles (so they are not folded into a range)
+            "complex-over-annotations",
+            vec![
+                res1(),
+                ann("a1", simple(tx("r1", 0, 2)), vec![k1("x")]),
+                ann("a2", simple(tx("r1", 3, 5)), vec![k1("y")]),
+                ann("a3", simple(tx("r1", 6, 8)), vec![k2(1)]),
+                ann("a4", Target { kind: TKind::Composite, parts: vec![TSimple::Ann { ann: "a1".into(), off: Some(Off::whole()) }, TSimple::Ann { ann: "a3".into(), off: Some(Off::whole()) }] }, vec![k1("x")]),
+                ann("a5", Target { kind: TKind::Directional, parts: vec![TSimple::Ann { ann: "a3".into(), off: Some(Off::simple(0, 1)) }, TSimple::Ann { ann: "a1".into(), off: Some(Off::simple(0, 1)) }] }, vec![k2(2)]),
+            ],
+        ),
+        (
             "shared-data",
             vec![
                 res1(),
